@@ -47,7 +47,11 @@ enum Outcome<T> {
 fn guarded<T, F: FnOnce() -> Result<T, cteepbd::error::EpbdError>>(f: F) -> Outcome<T> {
     match catch_unwind(AssertUnwindSafe(f)) {
         Ok(Ok(v)) => Outcome::Ok(v),
-        Ok(Err(e)) => Outcome::Err(err_kind(&e), e.to_string()),
+        // the text of an error is produced by the library too (Display for EpbdError): a panic there is data as well
+        Ok(Err(e)) => match catch_unwind(AssertUnwindSafe(|| e.to_string())) {
+            Ok(msg) => Outcome::Err(err_kind(&e), msg),
+            Err(p) => Outcome::Panic(format!("while formatting the error: {}", panic_msg(p))),
+        },
         Err(p) => Outcome::Panic(panic_msg(p)),
     }
 }
@@ -816,7 +820,11 @@ fn fault_bytes(lines: &Value) -> Vec<u8> {
                 out.push(b',');
             }
             first = false;
-            let t0 = f.as_str().unwrap_or("").replace("<NA>", "ñ€").replace("<CM>", "# ñ>€\"ñ&<\\");
+            let t0 = f.as_str().unwrap_or("").replace("<NA>", "ñ€").replace("<CM>", "# ñ>€\"ñ&<\\")
+                // long tails of two- and three-byte characters, at every alignment: a cut at any byte offset falls
+                // inside a character for one of them
+                .replace("<L20>", &"ñ".repeat(150)).replace("<L21>", &format!("x{}", "ñ".repeat(150)))
+                .replace("<L30>", &"€".repeat(100)).replace("<L31>", &format!("x{}", "€".repeat(100))).replace("<L32>", &format!("xx{}", "€".repeat(100)));
             let t = t0.as_str();
             let mut rest = t;
             while let Some(i) = rest.find("<FF>") {
@@ -927,6 +935,15 @@ fn main() {
         }
     };
     let mut out = std::io::BufWriter::new(file);
+    // progress: the ids of the cases that were handled completely, one per line, flushed with the trace - if the
+    // library takes the whole process down (abort, stack overflow), the driver reads here which case did it
+    let mut done = std::fs::File::create(format!("{}.done", path)).ok();
+    let mut mark = |case: &Value, out: &mut std::io::BufWriter<std::fs::File>| {
+        out.flush().ok();
+        if let Some(d) = done.as_mut() {
+            writeln!(d, "{}", case["case"]).ok();
+        }
+    };
     match mode {
         "cases" => {
             for line in stdin.lock().lines() {
@@ -938,7 +955,10 @@ fn main() {
                     continue;
                 }
                 match serde_json::from_str::<Value>(&line) {
-                    Ok(case) => run_case(&case, &mut out),
+                    Ok(case) => {
+                        run_case(&case, &mut out);
+                        mark(&case, &mut out);
+                    }
                     Err(e) => {
                         eprintln!("harness: bad case line: {}", e);
                         std::process::exit(2);
@@ -1068,7 +1088,10 @@ fn main() {
                     continue;
                 }
                 match serde_json::from_str::<Value>(&line) {
-                    Ok(case) => fault_case(&case, &mut out),
+                    Ok(case) => {
+                        fault_case(&case, &mut out);
+                        mark(&case, &mut out);
+                    }
                     Err(e) => {
                         eprintln!("harness: bad case line: {}", e);
                         std::process::exit(2);
